@@ -109,7 +109,7 @@ func runC08(c *rt.Ctx) {
 			c08legs.mu.Unlock()
 		}
 	})
-	n := c.N(40, 900)
+	n := c.N(40, 320)
 	for i := 0; i < n; i++ {
 		c.Case("pool", i, func(o *rt.Obs) { c08Case(c, o) })
 	}
